@@ -117,6 +117,29 @@ def handleGen (op : String) (j : Json) : Except String Json := do
       let sup := fun (s k : String) => (s == "Variables" || s == "") && ini.vars.any (fun p => p.1 == Atsim.norm k)
       return Json.mkObj [("has", arrJ (qs.map fun q => Json.bool (raw_has_option Atsim.strip sup ini.sections "Variables" q.1 q.2))),
                          ("xform", arrJ (qs.map fun q => Json.str (raw_optionxform Atsim.strip q.2)))]
+  | "reference_get" =>
+    -- Reference_Data.get: built-in rows and [Species] rows as [[species, [[property, value id], ...]], ...]; queries [[species, property], ...]
+    let rows := fun (k : String) => do
+      (← getArr j k).mapM fun r => do
+        match (← r.getArr?).toList with
+        | [Json.str sp, props] => do
+          let ps ← (← props.getArr?).toList.mapM fun q => do
+            match (← q.getArr?).toList with
+            | [Json.str pn, v] => pure (pn, (⟨← v.getNat?⟩ : RefVal))
+            | _ => throw "bad property"
+          pure (sp, ps)
+        | _ => throw "bad row"
+    let builtin ← rows "builtin"
+    let extra ← rows "extra"
+    let tbl : List (String × ElData) := (List.range builtin.length).zip builtin |>.map fun p => (p.2.1, ⟨p.1⟩)
+    let asDict := fun (e : ElData) => (builtin.getD e.id ("", [])).2
+    let qs ← (← getArr j "queries").mapM fun q => do
+      match (← q.getArr?).toList with
+      | [Json.str a, Json.str b] => pure (a, b)
+      | _ => throw "bad query"
+    return arrJ (qs.map fun q => match reference_get tbl asDict extra q.1 q.2 with
+      | .ok v => natJ v.id
+      | .error e => Json.str (match e with | .unknownSpecies => "unknownSpecies" | .unknownProperty => "unknownProperty" | .attributeError => "attributeError"))
   | "trans_modifier" =>
     -- _modifiers.trans on argument definitions: [id of what the form builder was handed (as for spline_modifier), the shift] or the error
     let forms ← (← getArr j "forms").mapM parseInstS
